@@ -49,7 +49,11 @@ def run_case(case, fam):
             expected = ov(*[a.clone() if isinstance(a, torch.Tensor) else a for a in args], **kwargs)
     except Exception as e:  # noqa: BLE001  torch refuses: outside the operator's domain
         return "skip:torch-raises", str(e)[:120]
-    if fam in _PROMOTING_FAMS and _promoting_scalar(args, kwargs, names):
+    if any(isinstance(a, torch.Tensor) and a.dtype == torch.uint8 for a in args) and any(
+            isinstance(a, (int, float)) and not isinstance(a, bool) and a < 0 and n in _OPERAND_NAMES + ("value", "fill_value")
+            for a, n in list(zip(args, names)) + [(v, k) for k, v in kwargs.items()]):
+        return "skip:negative-scalar-for-uint8(wraps)", None
+    if (fam in _PROMOTING_FAMS or qual.startswith("aten::where")) and _promoting_scalar(args, kwargs, names):
         return "skip:promoting-scalar", None
     est, exp = K.expected_outputs(expected)
     if est == "scalar":
@@ -88,15 +92,34 @@ def run_case(case, fam):
         # torchlib may legitimately return fewer outputs than torch's tuple only if ... no: structure must agree
     else:
         got = list(outs)
-    d = runeq.compare(got, exp, loose=_LOOSE.get(fam, 1.0))
+    loose = _LOOSE.get(fam, 1.0)
+    d = runeq.compare(got, exp, loose=loose)
     if d is None:
         return "ok", engine
+    if engine == "ort":
+        # arbitration: a disagreement that the reference evaluator does not share is an ORT defect
+        # (e.g. ReduceSum over an empty tensor with a negative axis keeps the axis), not torchlib's
+        try:
+            routs = runeq.run_ref(mp2, feeds)
+            rgot = [routs[0]] if (est == "list" and len(routs) == 1 and isinstance(routs[0], list)) else \
+                ([list(routs)] if est == "list" else list(routs))
+            dr = runeq.compare(rgot, exp, loose=loose)
+            if dr is None:
+                return "skip:ort-differs-reference-agrees-with-torch", d
+            d = dr + " [reference evaluator; ORT: " + d + "]"  # classify by the reference's answer
+        except Exception:  # noqa: BLE001  reference cannot run it: ORT's verdict stands
+            pass
     return K.classify_diff(d), d
 
 
 def execute_ops(item):
     fam, op = item["fam"], item["op"]
-    cases = item["cases"]
+    from vf.props import c08_dom
+    cases = c08_dom.cases_for(item["tier"], fam, op)
+    if item.get("part"):
+        cases = [cs for cs in cases if cs["f"].get("dtype", "") == item["part"]]
+    if len(cases) != item["ncases"]:
+        raise AssertionError(f"re-enumeration of {op} gave {len(cases)} cases, plan counted {item['ncases']}")
     verdicts, infos = [], []
     outcomes = collections.Counter()
     engines = collections.Counter()
@@ -119,6 +142,9 @@ def execute_ops(item):
         if cl is None:
             continue
         part = item.get("part") or ""
+        if part and "dtype" not in [x.split("=")[0].split("~")[0] for x in cl.split(",")]:
+            # the overload's cases were split over several items by dtype: the split feature stays in the class
+            cl = f"dtype={part.split('#')[0]}" + ("" if cl == "any" else "," + cl)
         key = f"C08|{verdicts[i]}|{op}|{cl}"
         if key not in viols:
             viols[key] = {"key": key, "detail": {"first_case": cases[i]["g"], "features": cases[i]["f"],
